@@ -1,7 +1,7 @@
 (* ProtoCheck.v — executable comparison of the Proto model with observations of the real
    code (used by the generated case files of C16).  Every check function returns the
    list of indices of the cases on which the model and the implementation disagree. *)
-From SigM Require Import Base Proto.
+From SigM Require Import Base Proto ProtoTree.
 From Coq Require Import String.
 Open Scope N_scope.
 
@@ -110,8 +110,15 @@ Definition doc_event_ok (e : event) (index : bytes) (o : lobs) : bool :=
 Definition mk_docq (r : doc_route) (id : option bytes) (ty : bytes) (refresh : bool) : doc_req :=
   {| dq_route := r; dq_id := id; dq_type := ty; dq_refresh := refresh |}.
 
+(* an event that is a TREE (nested objects, arrays): the time is read from the scalar members of the root, the
+   stored columns are what the flattener makes of the whole document *)
+Definition tree_event_ok (doc : jattrs) (index : bytes) (o : lobs) : bool :=
+  ts_agrees (jroot doc) index None o && same_fields (store_cols (flatten k_timestamp doc)) (ob_fields o).
+
 Inductive lcase :=
 | LEs (t : twire) (attrs : event)
+| LEsTree (t : twire) (attrs : event) (tree : jattrs)
+| LOtlpKvBody (res : otlp_res) (sc : otlp_scope) (r : otlp_rec) (body : jattrs)
 | LEsVia (al : list (bytes * bytes)) (t : twire) (attrs : event)
 | LEsDoc (gen : bytes) (q : doc_req) (t : twire) (attrs : event)
 | LHec (h : hec)
@@ -122,6 +129,8 @@ Definition lcase_ok (c : lcase * bytes * lobs) : bool :=
   let '(lc, index, o) := c in
   match lc with
   | LEs t attrs => event_ok (es_build t attrs) index None o
+  | LEsTree t attrs tree => tree_event_ok (leaves (es_build t attrs) ++ tree) index o
+  | LOtlpKvBody res sc r body => event_ok (otlp_log_build_kvbody res sc r body) index (otlp_log_dec r) o
   | LEsVia al t attrs => event_ok (es_build t attrs) (real_index al index) None o
   | LEsDoc gen q t attrs => doc_event_ok (doc_build gen q t attrs) index o
   | LHec h => event_ok (hec_build h) index None o
